@@ -155,6 +155,10 @@ def run(tier, seed):
                 "DER and UPER output must equal the reference, UPER and XER round trips must return the value; mismatches (identifier of row i with the "
                 "bytes of row j, in BER and UPER), identifiers without a row, and mutated BER/UPER/XER encodings must end in RC_FAIL/RC_WMORE -- or RC_OK "
                 "only when the row type's own decoder accepts the bytes -- without sanitizer report and with nothing left allocated after FREE (ledger); "
+                "shapes added to the rows and the frame: a row type that contains the frame again (pointer variant) and frames nested 1..5 deep through it, "
+                "built-in types as rows, the same type in two rows, frames without member tags, an OPTIONAL open type (present and absent), every third "
+                "module built with -fwide-types (identifiers at the 127/128 boundary); the library's own XER frames with white space / comments around the "
+                "wrapper element must read as the unmodified document; one allocation failure at each of the first 8/24 allocations of a frame decode; "
                 "distinct = distinct (module, encoding)")
     chk.assumptions = ["where the bytes of row j happen to be a valid encoding of row i's type only memory safety is demanded",
                        "OER is outside the statement of this property"]
@@ -355,6 +359,14 @@ def run(tier, seed):
             # the CXER text is not echoed for reg= encodes: take it from the plain CXER encode
             if r.events[2].get("out") not in (None, "-"):
                 srcs.append(("CXER", drv.unhex(r.events[2]["out"])))
+            # one allocation failure at every allocation of the decode (bounded), for each syntax
+            for syn, x in srcs:
+                if quick and rng.random() < 0.5:
+                    continue
+                for k in range(1, (8 if quick else 24) + 1):
+                    cid2 = len(cases2) + 1
+                    cases2.append(drv.Case(cid2, ["oom k=%d" % k, "dec s=0 t=Frame syn=%s in=%s" % (syn, drv.hx(x)), "prt s=0", "enc s=0 syn=DER quiet=1", "free s=0"]))
+                    meta2[cid2] = ("oom-" + syn, m[1], "k=%d" % k, x)
             for syn, x in srcs:
                 muts = mutate(rng, x, pool, 6 if quick else 20)
                 muts = rng.sample(muts, min(len(muts), 10 if quick else 40))
